@@ -24,6 +24,7 @@ import (
 	"errors"
 	"fmt"
 	"os"
+	"runtime"
 	"sort"
 	"strings"
 	"time"
@@ -57,6 +58,12 @@ type callRec struct {
 	VT        time.Duration // virtual time of the call
 	Class     string        // KILL: class of the task
 	EnvID     string        // KILL: environment the task was launched for
+	// KILL: the call was issued while the task manager was handling a status update (the reconciliation branch),
+	// not by a kill / cleanup request
+	ViaStatusUpdate bool
+	EverInRoster    bool // KILL: the roster of this life has ever been seen holding the task
+	TeardownEnv     bool // KILL: the operator had asked for the teardown of EnvID before
+	TaskLife        int  // KILL: life of the core that launched the task
 }
 
 // sim is the per-execution state shared by all lives.
@@ -87,11 +94,54 @@ type sim struct {
 	faultAt   string // description of the chosen fault point
 	drops     int
 	slowKill  time.Duration // the master takes this long to answer a KILL call (the caller waits)
+	faultCall string        // reconnect: kind of the call right after which the connection was dropped ("" = idle / timed)
+	// roster history per life (sampled at every call and at every idle moment): tasks ever seen in the roster
+	inRoster map[int]map[string]bool
+	taskLife map[string]int // life of the core that launched the task
+	// environments that have come to an end on their own (their creation failed): index into calls from which on
+	endedAt map[string]int
+}
+
+// sample records which tasks the roster of the given life holds right now.
+func (s *sim) sample(life int) {
+	c := s.cores[life]
+	if c == nil || c.Taskman == nil || s.dead[life] {
+		return
+	}
+	if s.inRoster[life] == nil {
+		s.inRoster[life] = map[string]bool{}
+	}
+	for _, t := range c.Taskman.RosterForVerif() {
+		s.inRoster[life][t.GetTaskId()] = true
+	}
+}
+
+// watch makes the roster history complete enough: besides every call, every moment at which the system waits.
+func (s *sim) watch(w *coresim.World) {
+	vrt.OnIdle(func() { s.sample(w.Life) })
+}
+
+// viaStatusUpdate: is the calling thread inside the task manager's message handler (status updates, and with
+// them the reconciliation branch, are handled there; kill and cleanup requests are not)?
+func viaStatusUpdate() bool {
+	pcs := make([]uintptr, 64)
+	n := runtime.Callers(2, pcs)
+	frames := runtime.CallersFrames(pcs[:n])
+	for {
+		f, more := frames.Next()
+		if strings.HasSuffix(f.Function, "(*Manager).handleMessage") {
+			return true
+		}
+		if !more {
+			return false
+		}
+	}
 }
 
 func newSim(m *coresim.Master) *sim {
 	return &sim{m: m, perLife: map[int]int{}, cores: map[int]*core.VerifCore{}, dead: map[int]bool{}, taskFID: map[string]string{},
-		fidOf: map[int]string{}, told: map[int]string{}, recon: map[int]map[string]string{}, unacked: map[string]*scheduler.Event{}, teardown: map[string]bool{}, envLife: map[string]int{}, envFailed: map[string]bool{}}
+		fidOf: map[int]string{}, told: map[int]string{}, recon: map[int]map[string]string{}, unacked: map[string]*scheduler.Event{}, teardown: map[string]bool{}, envLife: map[string]int{}, envFailed: map[string]bool{},
+		inRoster: map[int]map[string]bool{}, taskLife: map[string]int{}, endedAt: map[string]int{}}
 }
 
 type link struct {
@@ -188,6 +238,7 @@ func (l *link) Call(ctx context.Context, c *scheduler.Call) (mesos.Response, err
 		vrt.WaitUntil("dead-process", never)
 	}
 	typ := c.GetType().String()
+	s.sample(l.life)
 	// --- crash point: in front of this call
 	if s.armed && s.mode == "crash" && l.life == s.faultLife {
 		if vrt.ChooseFree(2, "crash-before-call") == 1 {
@@ -206,6 +257,7 @@ func (l *link) Call(ctx context.Context, c *scheduler.Call) (mesos.Response, err
 			if vrt.ChooseFree(2, "drop-after-call") == 1 {
 				s.armed = false
 				s.faultAt = fmt.Sprintf("after call #%d %s", rec.N, describe(c))
+				s.faultCall = describe(c)
 				s.breakConnection()
 			}
 		}
@@ -262,6 +314,7 @@ func (l *link) Call(ctx context.Context, c *scheduler.Call) (mesos.Response, err
 		resp, err := s.m.Call(ctx, c)
 		for _, id := range s.m.TaskOrder[before:] {
 			s.taskFID[id] = rec.FID
+			s.taskLife[id] = l.life
 		}
 		rec.Detail = fmt.Sprintf("tasks=%d", len(s.m.TaskOrder)-before)
 		s.calls = append(s.calls, rec)
@@ -303,6 +356,10 @@ func (l *link) Call(ctx context.Context, c *scheduler.Call) (mesos.Response, err
 		if t := s.m.Tasks[id]; t != nil {
 			rec.MesosSt, rec.TaskAlive, rec.Class, rec.EnvID = t.MesosState.String(), t.Alive, t.Class, t.EnvID
 		}
+		rec.ViaStatusUpdate = viaStatusUpdate()
+		rec.EverInRoster = s.inRoster[l.life][id]
+		rec.TeardownEnv = s.teardown[rec.EnvID]
+		rec.TaskLife = s.taskLife[id]
 
 		if s.taskFID[id] != rec.FID {
 			rec.Rejected = "task belongs to another framework"
@@ -451,9 +508,19 @@ func (r *runner) run() {
 		var err error
 		switch op {
 		case "create":
+			launchedBefore := len(r.s.m.TaskOrder)
 			r.ids[k], state, err = r.w.Create(r.sh.wfs[k], nil)
 			if err == nil {
 				r.s.envLife[r.ids[k]] = r.w.Life
+			} else {
+				// the environment this request launched tasks for has come to an end on its own
+				for _, id := range r.s.m.TaskOrder[launchedBefore:] {
+					if e := r.s.m.Tasks[id].EnvID; e != "" {
+						if _, have := r.s.endedAt[e]; !have {
+							r.s.endedAt[e] = len(r.s.calls)
+						}
+					}
+				}
 			}
 		case "cleanupids":
 			// a CleanupTasks request naming the tasks of a live environment: legal, and must change nothing
@@ -537,6 +604,15 @@ type restartObs struct {
 // mesosStates: at the crash instant the master's view of every live task is additionally enumerated over all non-terminal states.
 // newEnv: after life 2 has settled, the operator creates a fresh environment in it.
 func restartScenario(name string, sh shape, mesosStates, newEnv bool, q, t vrt.Bounds) *vrt.Scenario {
+	return restartScenarioX(name, sh, mesosStates, newEnv, false, q, t)
+}
+
+// restartScenarioX, reconnect2: a fault sequence - the core is killed while its environment is RUNNING (fixed crash
+// point), and the connection of the second life is dropped right after one of ITS calls (every one of them is tried:
+// the SUBSCRIBE, the implicit RECONCILE whose answers are then lost in flight, each KILL, each ACKNOWLEDGE). The second
+// life resubscribes; when everything has settled the statement must hold all the same: same framework identity on
+// every subscription, every task of the previous life asked to terminate and dead.
+func restartScenarioX(name string, sh shape, mesosStates, newEnv, reconnect2 bool, q, t vrt.Bounds) *vrt.Scenario {
 	var o restartObs
 	var s *sim
 	body := func() {
@@ -549,10 +625,11 @@ func restartScenario(name string, sh shape, mesosStates, newEnv bool, q, t vrt.B
 			return coresim.OK
 		}
 		s = newSim(m)
-		s.mode, s.faultLife, s.armed = "crash", 1, !mesosStates
+		s.mode, s.faultLife, s.armed = "crash", 1, !mesosStates && !reconnect2
 		w := &coresim.World{M: m}
+		s.watch(w)
 		r := &runner{w: w, s: s, sh: sh}
-		if mesosStates {
+		if mesosStates || reconnect2 {
 			// fixed crash point: the environment is RUNNING and idle
 			r.sh.script = []string{"create:0", "start:0"}
 		}
@@ -581,8 +658,20 @@ func restartScenario(name string, sh shape, mesosStates, newEnv bool, q, t vrt.B
 		}
 		o.aliveAtCrash = s.alive()
 		// ---- life 2
+		if reconnect2 {
+			s.mode, s.faultLife, s.armed, s.faultAt = "reconnect", 2, true, ""
+		}
 		startCore(w, s)
 		settle(5 * time.Second)
+		if reconnect2 {
+			// unacknowledged status updates are retried by the agents after statusRetry
+			settle(2 * statusRetry)
+			s.armed = false
+			if s.faultAt == "" {
+				s.faultAt = "no drop"
+			}
+			o.faultAt += "; connection of life 2: " + s.faultAt
+		}
 		o.reached = true
 		for _, c := range s.calls {
 			if c.Life == 2 {
@@ -633,6 +722,15 @@ func restartScenario(name string, sh shape, mesosStates, newEnv bool, q, t vrt.B
 				out = append(out, vrt.Violation{Clause: "restart:new-life-never-subscribes", Detail: ctx})
 			} else if o.life2Sub[0].FID != o.life1FID {
 				out = append(out, vrt.Violation{Clause: "restart:subscribes-under-different-framework-id", Detail: fmt.Sprintf("life 1 was framework %q, life 2 subscribed as %q\n%s", o.life1FID, o.life2Sub[0].FID, ctx)})
+			}
+			for _, c := range o.life2Sub {
+				if c.FID != o.life1FID && c.FID == o.life2Sub[0].FID {
+					break // reported above
+				}
+				if c.FID != o.life1FID {
+					out = append(out, vrt.Violation{Clause: "restart:resubscribes-under-different-framework-id", Detail: fmt.Sprintf("life 1 was framework %q, life 2 subscribed again as %q\n%s", o.life1FID, c.FID, ctx)})
+					break
+				}
 			}
 			for _, c := range o.life2Calls {
 				if c.Type != "SUBSCRIBE" && c.FID != o.life1FID {
@@ -687,7 +785,22 @@ func restartScenario(name string, sh shape, mesosStates, newEnv bool, q, t vrt.B
 // ownedKills: a KILL call for a task that, at that instant, was in the roster of the calling life and locked by an
 // environment whose teardown nobody asked for, after that life had been sent a reconciliation update for the task.
 func ownedKills(s *sim, what, ctx string) (out []vrt.Violation) {
-	for _, c := range s.calls {
+	for i, c := range s.calls {
+		if c.Type == "KILL" && c.ViaStatusUpdate && c.Recon && c.Owner == "" && !c.EverInRoster && c.TaskLife == c.Life && c.EnvID != "" && !c.TeardownEnv {
+			if end, ended := s.endedAt[c.EnvID]; !ended || i < end {
+				// the task was launched by this life for an environment that nobody asked to tear down and that has not
+				// come to an end; the roster of this life has never held it (launched tasks are handed to the roster only
+				// when the whole deployment request returns), so the reconciliation branch takes it for a stranger
+				at := "idle"
+				if s.faultCall != "" {
+					at = "connection-dropped-right-after-" + s.faultCall
+				}
+				out = append(out, vrt.Violation{Clause: "reconciliation-kills-task-of-live-environment:launched-not-yet-in-roster:" + what + ":" + at,
+					Detail: fmt.Sprintf("life %d call #%d KILL %s (%s) at %v, issued while handling a status update: launched by this life for environment %s (being created, no teardown requested, not failed), never seen in the roster so far; the master had answered the implicit reconciliation with %s for it\n%s",
+						c.Life, c.N, c.Task, c.Class, c.VT, c.EnvID, s.recon[c.Life][c.Task], ctx)})
+				return
+			}
+		}
 		if c.Type == "KILL" && c.Owner == "" && c.Recon && c.EnvID != "" && s.envLife[c.EnvID] == c.Life && !s.teardown[c.EnvID] && !s.envFailed[c.EnvID] {
 			// the roster of this life no longer knows the task, yet it was launched for an environment that this life
 			// created successfully, that nobody asked to tear down and that has not failed on its own
@@ -722,25 +835,56 @@ type reconObs struct {
 }
 
 func reconnectScenario(name string, sh shape, q, t vrt.Bounds) *vrt.Scenario {
+	return reconnectScenarioX(name, sh, false, 0, q, t)
+}
+
+// reconnectScenarioX, mesosStates: the only reconnection is the idle one after "start:0" (environment RUNNING), and
+// the state the master reports for every live task in its reconciliation answer is enumerated over all non-terminal
+// Mesos states: whatever the master says about a task that a live environment owns, the answer must not get it killed.
+// Shapes with a task that never reports TASK_RUNNING (staging): the creation is still in progress when the connection
+// breaks, the master answers TASK_STAGING for a task that the deploying environment owns but the core has not seen active.
+// timedDrop > 0: one more reconnection point, that long after the start of the script while nothing calls the master
+// (shape staging: the deployment waits for a task that never reports TASK_RUNNING; the tasks are in the roster, locked).
+func reconnectScenarioX(name string, sh shape, mesosStates bool, timedDrop time.Duration, q, t vrt.Bounds) *vrt.Scenario {
 	var o reconObs
 	var s *sim
 	body := func() {
 		o = reconObs{}
 		m := coresim.NewMaster(agents()...)
+		m.Behaviour = func(t *coresim.SimTask, kind string) coresim.Outcome {
+			if kind == "launch" && t.Class == "c18stg1" {
+				return coresim.NeverRunning
+			}
+			return coresim.OK
+		}
 		s = newSim(m)
-		s.mode, s.faultLife, s.armed = "reconnect", 1, true
+		s.mode, s.faultLife, s.armed = "reconnect", 1, !mesosStates
 		w := &coresim.World{M: m}
+		s.watch(w)
 		r := &runner{w: w, s: s, sh: sh}
 		r.boundary = func(step int) {
-			if !s.armed || step == len(sh.script)-1 {
-				return
+			if mesosStates {
+				if sh.script[step] != "start:0" {
+					return
+				}
+				vrt.Quiesce("step-boundary")
+				var asg []string
+				for _, t := range s.m.AliveTasks() {
+					t.MesosState = nonTerminal[vrt.ChooseFree(len(nonTerminal), "mesos-state-reported")]
+					asg = append(asg, t.MesosState.String())
+				}
+				s.faultAt = "idle after step " + sh.script[step] + ", master reports " + strings.Join(asg, ",")
+			} else {
+				if !s.armed || step == len(sh.script)-1 {
+					return
+				}
+				vrt.Quiesce("step-boundary")
+				if vrt.ChooseFree(2, "drop-at-boundary") == 0 {
+					return
+				}
+				s.armed = false
+				s.faultAt = "idle after step " + sh.script[step]
 			}
-			vrt.Quiesce("step-boundary")
-			if vrt.ChooseFree(2, "drop-at-boundary") == 0 {
-				return
-			}
-			s.armed = false
-			s.faultAt = "idle after step " + sh.script[step]
 			o.quiescent = true
 			o.stateBefore = envsOf(w)
 			o.aliveAt = s.alive()
@@ -750,11 +894,21 @@ func reconnectScenario(name string, sh shape, q, t vrt.Bounds) *vrt.Scenario {
 			o.aliveAfter = s.alive()
 		}
 		startCore(w, s)
+		if timedDrop > 0 {
+			vrt.Go("connection", func() {
+				vrt.Sleep(timedDrop)
+				if s.armed && !r.done && vrt.ChooseFree(2, "drop-while-waiting") == 1 {
+					s.armed = false
+					s.faultAt = fmt.Sprintf("at %v, while the request waits and nothing calls the master", timedDrop)
+					s.breakConnection()
+				}
+			})
+		}
 		r.run()
 		settle(2 * statusRetry)
 		o.reached = true
 		o.faultAt = s.faultAt
-		if s.armed {
+		if s.armed || (mesosStates && s.drops == 0) {
 			o.faultAt = "none"
 		}
 		o.results = r.results
@@ -833,6 +987,7 @@ func overlapScenario(name string, q, t vrt.Bounds) *vrt.Scenario {
 		m := coresim.NewMaster(agents()...)
 		s = newSim(m)
 		w := &coresim.World{M: m}
+		s.watch(w)
 		startCore(w, s)
 		idA, _, err := w.Create("c18-one", nil)
 		if err != nil {
@@ -941,6 +1096,9 @@ func main() {
 		reconnectScenario("reconnect-two", shapes["two"], q0, t1),
 		reconnectScenario("reconnect-envs", shapes["envs"], q0, t1),
 		reconnectScenario("reconnect-cleanup", shapes["cleanup"], q0, t1),
+		reconnectScenarioX("reconnect-states", shapes["two"], true, 0, q0, t1),
+		reconnectScenarioX("reconnect-staging", shapes["staging"], false, 5*time.Second, q0, t1),
+		restartScenarioX("restart-reconnect", shapes["two"], false, false, true, q0, t1),
 		restartScenario("restart-cleanup", shapes["cleanup"], false, false, q0, t1),
 		overlapScenario("reconnect-overlap", q0, t1),
 	})
